@@ -948,6 +948,7 @@ func c16BackEnd(a Args, rng *rand.Rand, res *Result, cases []c16Case, replay *c1
 	// three modules in one file, the last one using types of the first two (and the second those of the first)
 	c16CompileText(res, t2g, filepath.Join(base, "tvthree"), map[string]string{"three.tars": c16ThreeModules}, "three.tars", nil)
 	c16CompileText(res, t2g, filepath.Join(base, "tvchain4"), c16Chain4, "top.tars", nil)
+	c16CompileText(res, t2g, filepath.Join(base, "tvchain4c"), c16Chain4, "top.tars", []string{"-module-cycle"}) // imports by (file, module)
 	// -module-cycle lays the packages out by file and module: a dependent pair must still compile (compile only)
 	{
 		dep := c16TvProgram(rng, 9000, c16GenOpt{Compilable: true, Small: true}, nil)
